@@ -369,3 +369,111 @@ func init() {
 		c.Check(n >= 3, "block sync save/apply sites", "-", fmt.Sprintf("%d", n), fmt.Sprintf("only %d", n))
 	})
 }
+
+// ------------------------------------------------------------------ C13.R10
+// Defects found by reading the three reactors against each other (hunting agents), all on the "reaches the
+// tip and hands over" side of the property:
+// (a) F36 — v2: each send function of the switch adapter puts the message type its name says on the wire,
+//
+//	with the values it was given (sendStatusResponse sent a StatusRequest: v2 nodes never learned each
+//	other's height);
+//
+// (b) F37 — v0: the tallest-peer height is recomputed whenever a peer's height is (re)set, not only raised:
+//
+//	a stale maximum keeps IsCaughtUp false for good;
+//
+// (c) F38 — v1: what FirstTwoBlocksAndPeers returns is dereferenced only behind a nil test (the peers may
+//
+//	have left while their blocks were being verified outside the FSM).
+func init() {
+	register("C13", "R10", "K5+K2+K1", "v2 sends the message type each send function names; v0 recomputes the tallest peer height on every status; v1 tests the first two blocks' entries before using them", 6, func(c *Ctx) {
+		w := c.W
+		table := map[string]string{
+			"sendStatusResponse":     "StatusResponse",
+			"sendBlockRequest":       "BlockRequest",
+			"sendBlockToPeer":        "BlockResponse",
+			"sendBlockNotFound":      "NoBlockResponse",
+			"broadcastStatusRequest": "StatusRequest",
+		}
+		found := 0
+		for _, f := range w.methodsOf("blockchain/v2", "switchIO") {
+			want, ok := table[f.Name()]
+			if !ok || f.Parent() != nil {
+				continue
+			}
+			found++
+			var got []string
+			for _, b := range f.Blocks {
+				for _, in := range b.Instrs {
+					mi, ok := in.(*ssa.MakeInterface)
+					if !ok {
+						continue
+					}
+					if nt := derefNamed(mi.X.Type()); nt != nil && nt.Obj().Pkg() != nil && strings.HasSuffix(nt.Obj().Pkg().Path(), "proto/tendermint/blockchain") {
+						got = append(got, nt.Obj().Name())
+					}
+				}
+			}
+			c.Check(len(got) == 1 && got[0] == want, funcKey(f)+" :: puts a "+want+" on the wire", w.pos(f.Pos()), want, fmt.Sprintf("%s sends %v", f.Name(), got))
+		}
+		c.Check(found >= 4, "blockchain/v2.switchIO :: send functions found", "-", ">= 4", fmt.Sprintf("%d", found))
+		if f := c.fn("blockchain/v2", "switchIO.sendStatusResponse"); f != nil {
+			got := map[string]string{}
+			for _, b := range f.Blocks {
+				for _, in := range b.Instrs {
+					if st, ok := in.(*ssa.Store); ok {
+						if fa, ok := st.Addr.(*ssa.FieldAddr); ok {
+							if nt := derefNamed(fa.X.Type()); nt != nil && nt.Obj().Name() == "StatusResponse" {
+								got[fieldName(fa.X.Type(), fa.Field)] = w.expr(st.Val)
+							}
+						}
+					}
+				}
+			}
+			c.Check(got["Base"] == "base" && got["Height"] == "height", funcKey(f)+" :: reports the base and height it was given", w.pos(f.Pos()), "Base: base, Height: height", fmt.Sprintf("Base=%s Height=%s", got["Base"], got["Height"]))
+		}
+		// (b)
+		if f := c.fn("blockchain/v0", "BlockPool.SetPeerRange"); f != nil {
+			fk := funcKey(f)
+			n := 0
+			for _, fs := range w.fieldStoresIn(f, "blockchain/v0", "bpPeer", "height") {
+				n++
+				ok, _, _ := mustFollow(fs.Store, w.callPred("blockchain/v0#BlockPool.updateMaxPeerHeight"), nil)
+				c.Check(ok, fk+" :: the tallest-peer height is recomputed after a peer's height was reset", w.ipos(fs.Store), "updateMaxPeerHeight() follows", "a peer's height is overwritten (possibly lowered) without the maximum being recomputed: it can stay above every peer for good")
+			}
+			c.Check(n >= 1, fk+" :: store of an existing peer's height found", w.pos(f.Pos()), ">= 1", fmt.Sprintf("%d", n))
+		}
+		// (c)
+		for _, f := range w.FuncsInPkg("blockchain/v1") {
+			for _, call := range rawCallsTo(w, f, "blockchain/v1#BlockPool.FirstTwoBlocksAndPeers") {
+				cv, ok := call.(*ssa.Call)
+				if !ok {
+					continue
+				}
+				var errv ssa.Value
+				for _, r := range *cv.Referrers() {
+					if ex, ok := r.(*ssa.Extract); ok && ex.Index == 2 {
+						errv = ex
+					}
+				}
+				for _, r := range *cv.Referrers() {
+					ex, ok := r.(*ssa.Extract)
+					if !ok || ex.Index > 1 {
+						continue
+					}
+					for _, use := range *ex.Referrers() {
+						fa, isFA := use.(*ssa.FieldAddr)
+						if !isFA {
+							continue
+						}
+						gs := []Guard{guardRe("the entry exists", `^nonnil\(`+q(w.expr(ex))+`\)$`)}
+						if errv != nil {
+							gs = append(gs, guardRe("no error", `^nil\(`+q(w.expr(errv))+`\)$`))
+						}
+						c.guards(f, fa, fmt.Sprintf("%s :: use entry #%d of the first two blocks", funcKey(f), ex.Index), 0, guardAny("the entry was tested (non-nil, or no error)", gs...))
+					}
+				}
+			}
+		}
+	})
+}
